@@ -338,12 +338,21 @@ type ipExpect struct {
 func (c *ipCase) expect() ipExpect {
 	var e ipExpect
 	root := reflect.New(c.T).Elem()
+	// the class names the case: a step that cannot be taken (rank 3) before a value that does not fit (2) before "no value" (1)
+	rank := 0
 	note := func(must bool, class, why string) {
-		if must && !e.Must {
-			e.Must, e.Class, e.Why = true, class, why
+		rk := 1
+		if must {
+			rk = 2
+			e.Must = true
+		} else {
+			e.May = true
 		}
-		if !must && !e.Must && !e.May {
-			e.May, e.Class, e.Why = true, class, why
+		if class == gNoField.String() || class == gNotContainer.String() || class == gBadKey.String() {
+			rk = 3
+		}
+		if rk > rank {
+			rank, e.Class, e.Why = rk, class, why
 		}
 	}
 	if c.Whole != nil {
@@ -352,11 +361,15 @@ func (c *ipCase) expect() ipExpect {
 		}
 	}
 	for _, m := range c.Maps {
-		x, st, w := refGetX(c.Val, m.From)
-		depth := ""
-		if w.Step > 0 {
-			depth = "-below-the-top-level"
+		if rv := reflect.ValueOf(c.Val); rv.IsValid() && rv.Kind() == reflect.Struct {
+			if sf, ok := rv.Type().FieldByName(m.From[0]); ok && !sf.IsExported() {
+				// a field that exists but is not exported cannot be read from outside its package
+				note(true, gNoField.String(), fmt.Sprintf("field %s of %v is not exported", m.From[0], rv.Type()))
+				continue
+			}
 		}
+		x, st, w := refGetX(c.Val, m.From)
+		const depth = "" // how deep the walk got is in the detail (w.Step)
 		switch st {
 		case gOK:
 			if x == nil {
